@@ -5,3 +5,7 @@ for d in /tmp/seed/out-C*; do
   if ls $d/*.patch.diff >/dev/null 2>&1; then mkdir -p /verif/seeded-incoming/$id; cp -u $d/*.patch.diff $d/*.demo.* $d/*.meta.json /verif/seeded-incoming/$id/ 2>/dev/null; fi
 done
 ls /verif/seeded-incoming
+for d in /tmp/seed/out2-C*; do
+  id=$(basename $d | sed 's/out2-//')
+  if ls $d/*.patch.diff >/dev/null 2>&1; then mkdir -p /verif/seeded-incoming/round2/$id; cp -u $d/*.patch.diff $d/*.demo.* $d/*.meta.json /verif/seeded-incoming/round2/$id/ 2>/dev/null; fi
+done
